@@ -161,6 +161,7 @@ structure St where
   fs : FS := []
   sess : Session := {}
   created : Nat := 0
+  version : Nat := 0     -- counts successful mutations of the file system (for the `hash` observation)
 
 def noLegacy (_ : Obj) : R ReadOut := throw (.error "legacy import not modelled at this level")
 
@@ -179,7 +180,7 @@ def step (st : St) (j : Json) : P (St × Json) := do
       -- a header (and so a UUID) is written exactly when a new file is created
       let createdNow := !existed || (match classifyMode (effectiveMode mode ep) with
         | some .overwrite => true | _ => false)
-      pure ({ st with fs := fs', created := if createdNow then st.created + 1 else st.created }, Json.mkObj [("ok", true)])
+      pure ({ st with fs := fs', created := if createdNow then st.created + 1 else st.created, version := st.version + 1 }, Json.mkObj [("ok", true)])
     | .error e => pure (st, errToJson e)
   | "read" =>
     let path ← strField j "path"
@@ -191,19 +192,25 @@ def step (st : St) (j : Json) : P (St × Json) := do
   | "put" =>
     let path ← strField j "path"
     if let some id := optField j "junk" then
-      pure ({ st with fs := fsSet st.fs path (.junk (← id.getStr?)) }, Json.mkObj [("ok", true)])
+      pure ({ st with fs := fsSet st.fs path (.junk (← id.getStr?)), version := st.version + 1 }, Json.mkObj [("ok", true)])
     else
       let o ← objOfJson (← j.getObjVal? "h5")
-      pure ({ st with fs := fsSet st.fs path (.h5 o) }, Json.mkObj [("ok", true)])
+      pure ({ st with fs := fsSet st.fs path (.h5 o), version := st.version + 1 }, Json.mkObj [("ok", true)])
   | "remove" =>
     let path ← strField j "path"
-    pure ({ st with fs := fsErase st.fs path }, Json.mkObj [("ok", true)])
+    pure ({ st with fs := fsErase st.fs path, version := st.version + 1 }, Json.mkObj [("ok", true)])
   | "walk" =>
     let path ← strField j "path"
     match fsLookup st.fs path with
     | none => pure (st, Json.mkObj [("absent", true)])
     | some (.junk id) => pure (st, Json.mkObj [("junk", .str id)])
     | some (.h5 f) => pure (st, Json.mkObj [("h5", objToJson f)])
+  | "hash" =>
+    -- reads have no store output, so the content version only moves on save / put / remove
+    let path ← strField j "path"
+    match fsLookup st.fs path with
+    | none => pure (st, Json.mkObj [("absent", true)])
+    | some _ => pure (st, Json.mkObj [("hash", .str s!"v{st.version}")])
   | "info" =>
     let path ← strField j "path"
     match fsLookup st.fs path with
